@@ -1,5 +1,5 @@
 #!/bin/bash
-# Offline build of the whole framework from files on disk: regenerate Gen/ from /repo, full .vo build, extraction + OCaml driver.
+# Offline build of the whole framework from files on disk: regenerate Gen/ from /repo, full .vo build.
 set -e
 cd "$(dirname "$0")"
 export PYTHONPATH=${VERIF_REPO:-/repo} PYTHONHASHSEED=0
@@ -16,5 +16,4 @@ PY
 cd coq
 coq_makefile -f _CoqProject -o Makefile > /dev/null
 timeout 3000 make -j16 -k 2>&1 | grep -v "^Axioms:\|^  \|^Closed under\|^[A-Za-z_.]* *:" | tail -40
-if [ -f Extract/build.sh ]; then bash Extract/build.sh; fi
 echo "setup done"
